@@ -139,9 +139,21 @@ def gen_write_path(repo):
     # ---- client execute_request
     csrc = rp.read(f'{repo}/rodbus/src/client/task.rs')
     ebody = rp.find_body(csrc, r'async\s+fn\s+execute_request\s*\(')
-    n = len(re.findall(r'io\.write\(bytes, self\.decode\.physical\)\.await\?;', ebody))
-    if n != 1 or len(re.findall(r'\bio\s*\.\s*write\s*\(', csrc)) != 1:
-        raise ParseError('client/task.rs: the request write is not the single statement `io.write(bytes, self.decode.physical).await?;` of execute_request')
-    out += '(* client/task.rs: execute_request awaits the request write directly (it is not a select! branch) *)\n'
+    eflat = ' '.join(ebody.split())
+    direct = len(re.findall(r'io\.write\(bytes, self\.decode\.physical\)\.await\?;', eflat))
+    bounded = len(re.findall(r'match tokio::time::timeout\(request\.timeout, io\.write\(bytes, self\.decode\.physical\)\)\.await \{ '
+                             r'Ok\(res\) => res\?, Err\(_\) => return Err\(RequestError::Io\(std::io::ErrorKind::TimedOut\)\), \}', eflat))
+    if direct + bounded != 1 or len(re.findall(r'\bio\s*\.\s*write\s*\(', csrc)) != 1:
+        raise ParseError('client/task.rs: the request write of execute_request is neither `io.write(bytes, self.decode.physical).await?;` '
+                         'nor that write bounded by tokio::time::timeout(request.timeout, ..) -> Io(TimedOut)')
+    # the write must come before the response deadline is taken (C12: the timeout runs from the transmission)
+    wpos = eflat.find('io.write(bytes')
+    dpos = eflat.find('let deadline = Instant::now() + request.timeout;')
+    if dpos < 0 or wpos > dpos:
+        raise ParseError('client/task.rs execute_request: the response deadline is not taken after the request write')
+    out += '(* client/task.rs: execute_request awaits the request write itself (it is not a select! branch: commands that\n'
+    out += '   arrive meanwhile stay queued); since F14 the wait is bounded by the request timeout and ends the session with Io(TimedOut) *)\n'
+    out += 'Inductive client_write_shape_t := ClientWriteAwaitedUnbounded | ClientWriteBoundedByRequestTimeout.\n'
+    out += f'Definition client_write_shape : client_write_shape_t := {"ClientWriteBoundedByRequestTimeout" if bounded else "ClientWriteAwaitedUnbounded"}.\n'
     out += 'Definition client_write_awaited_directly : bool := true.\n'
     return out
